@@ -133,6 +133,38 @@ def fault_array_cases():
     return out
 
 
+def extra_cases(quick):
+    """(1) mismatches that are NOT in the shape: wrong dtype (general and precision-specific
+    category, Duck and np.ndarray carriers), wrong array class - with a shape that matches or
+    not; (2) nested annotations D2[D1[A, inner], outer] (checked as 'outer inner'), including
+    outer parts without any named axis."""
+    out = []
+    dims = ["a b", "a b c", "a *v", "*v a b", "#b a", "a 2 b", "a+0 b", "c a"]
+    shapes = [(2, 3), (3, 2), (2, 2, 3), (2, 3, 4), (1, 2)]
+    for d in dims:
+        for sh in shapes:
+            out.append((["arr", d], ["duck", list(sh), "int32"], "wrong-dtype"))
+            out.append((["arr", d, "Float32"], ["duck", list(sh), "float64"], "wrong-precision"))
+            out.append((["arr", d, "Int"], ["duck", list(sh), "uint8"], "wrong-dtype-int"))
+            out.append((["arr", d], ["duck2", list(sh)], "wrong-class"))
+            out.append((["arr", d, "Float", "np"], ["np", list(sh), "int32"], "np-wrong-dtype"))
+            out.append((["arr", d, "Float", "np"], ["np", list(sh), "float32"], "np-right-dtype"))
+            out.append((["arr", d, "Float", "np"], ["duck", list(sh)], "np-wrong-class"))
+    outers = ["2", "_", "...", "3 2", "a+1", "b", "#b 2", "*v"]
+    inners = ["a 3", "a b", "a", "*v a", "a c+1", "b a"]
+    nshapes = [(2, 2, 3), (2, 3, 3), (2, 5, 3), (3, 2, 5, 3), (2, 3), (2, 5), (3, 3), (2, 2), (5,), (3,), (2, 2, 2, 3)]
+    cats = [("Float", "Float"), ("Shaped", "Float"), ("Float", "Shaped")] if not quick else [("Float", "Float"), ("Shaped", "Float")]
+    for o in outers:
+        for i in inners:
+            if ("*" in o or "..." in o) and "*" in i:
+                continue
+            for oc, ic in cats:
+                for sh in nshapes:
+                    out.append((["narr", o, i, oc, ic], ["duck", list(sh)], "nested"))
+                out.append((["narr", o, i, oc, ic], ["duck", [2, 2, 3], "int32"], "nested-wrong-dtype"))
+    return out
+
+
 def _probe_battery(adapter, Float, Duck):
     """Non-binding public read of the single-axis bindings: 'n+0' is True/False when
     n is bound and AnnotationError when it is not; never binds."""
@@ -171,7 +203,11 @@ def _shard(job):
                 while pos < len(cases):
                     aspec, vspec, label = cases[pos]
                     pos += 1
-                    ann = specs.build_ann(aspec)
+                    try:
+                        ann = specs.build_ann(aspec)
+                    except ValueError:
+                        stats["unbuildable"] = stats.get("unbuildable", 0) + 1
+                        continue  # not a legal annotation (C14/C15 judge that); nothing to check here
                     val = specs.build_val(vspec)
                     before = adapter.read_state()
                     states_seen.add(before)
@@ -253,6 +289,7 @@ def run(ctx):
     arr_cases = [(["arr", d], ["duck", list(sh)], "arr") for d in dims for sh in shapes]
     pt_cases = pytree_cases(ctx.quick)
     f_cases = fault_array_cases()
+    x_cases = extra_cases(ctx.quick)
     work = []
     for hist in STATE_HISTS:
         # split array cases into chunks so that shards are balanced
@@ -261,6 +298,7 @@ def run(ctx):
             work.append((hist, arr_cases[i::n]))
         work.append((hist, pt_cases))
         work.append((hist, f_cases))
+        work.append((hist, x_cases))
     jobs = [dict(work=[work[i] for i in idx]) for idx in common.shards(len(work), common.NCPU * 3, ctx.seed)]
     outs = common.pmap(_shard, jobs)
     stats = common.merge_counts(o[0] for o in outs)
@@ -280,10 +318,12 @@ def run(ctx):
         array_cases=len(arr_cases),
         pytree_cases=len(pt_cases),
         fault_cases=len(f_cases),
+        dtype_class_and_nested_cases=len(x_cases),
         start_histories=len(STATE_HISTS),
         exhaustive=True,
         bounds="3 single-axis tokens from 5 (+1 multi-axis token at any position), shapes rank 2-4 over 1..3; PyTrees of 1-4 leaves with the bad/raising leaf at every position; "
-        "one injected fault (Exception / BaseException) at every access 1..8 of shape/dtype",
+        "one injected fault (Exception / BaseException) at every access 1..8 of shape/dtype; wrong dtype / precision / array class with matching and non-matching shapes; "
+        "nested annotations over 8 outer x 6 inner dim strings x 2-3 category pairs x 11 shapes",
     )
     return Result(level="model_checking", coverage=cov, violations=viols, assumptions=["state read through vf/adapter (internal memo) AND public print_bindings / symbolic probes"])
 
